@@ -236,20 +236,17 @@ func (n *dagScanNode) Next() (bool, error) {
 	}
 
 	if n.commitSelect.FieldName.HasValue() {
+		matchesFieldName := false
 		if n.commitSelect.FieldName.Value() == request.CompositeFieldName {
-			if dagBlock.Delta.IsComposite() {
-				// no-op, block passes the filter and should continue in this func
-			} else {
-				return n.Next()
-			}
+			matchesFieldName = dagBlock.Delta.IsComposite()
 		} else {
-			fieldName := dagBlock.Delta.GetFieldName()
-
-			if fieldName == n.commitSelect.FieldName.Value() {
-				// no-op, block passes the filter and should continue in this func
-			} else {
-				return n.Next()
-			}
+			matchesFieldName = dagBlock.Delta.GetFieldName() == n.commitSelect.FieldName.Value()
+		}
+		if !matchesFieldName {
+			// The block is skipped. It must be marked as visited, otherwise a request that targets
+			// it by cid would fetch it again and again.
+			n.visitedNodes[currentCid.String()] = true
+			return n.Next()
 		}
 	}
 
